@@ -200,6 +200,17 @@ func (f *File) Coq() string {
 	for _, i := range f.Imports {
 		imps = append(imps, fmt.Sprintf("(mkImport %s %s)", S(i.Path), S(i.Alias)))
 	}
+	if f.HasEntity() {
+		// a file with entities: J5sEntity.expand_jfile replaces every entity by the elements it stands for
+		for _, e := range f.Elements {
+			if e.Kind == "entity" {
+				els = append(els, "XEntity "+e.Entity.Coq())
+			} else {
+				els = append(els, "XPlain "+e.Coq())
+			}
+		}
+		return fmt.Sprintf("(expand_jfile %s %s %s\n    %s)", strList(f.Dir), S(f.Base), list(imps), "["+strings.Join(els, ";\n     ")+"]")
+	}
 	for _, e := range f.Elements {
 		els = append(els, e.Coq())
 	}
